@@ -1,12 +1,12 @@
 SPECIFICATION Spec
-CONSTANTS Times <- McTimesT
- RootTimes <- McRootT
- ExpChoices <- McExpT
- Menu <- McMenu
- QMenu <- McQMenu
+CONSTANTS Times <- McTimesCT
+ RootTimes <- McRootQ
+ ExpChoices <- McExpQ
+ Menu <- McMenuCT
+ QMenu <- McQMenuCT
  MaxBlocks = 3
  HashCoversSig = FALSE
- Encs = {"c"}
+ Encs = {"c", "h", "k", "g", "x"}
  CarrierKeyed = FALSE
  PruneLife = 1800
  ReloadLife = 1800
